@@ -83,7 +83,7 @@ class Session:
         self.note_denoms(op)
         r = self.h.op(op)
         step = {"i": len(self.steps), "pre": self.obs, "op": op, "outcome": r["outcome"], "err": r["err"],
-                "msgs": r["msgs"], "post": r["obs"], "tag": tag, "market_calls": r["market_calls"]}
+                "msgs": r["msgs"], "post": r["obs"], "tag": tag, "market_calls": r["market_calls"], "emitted": r.get("emitted", 0)}
         if r["obs"] == self.obs:
             step["post"] = self.obs  # share the object
         self.obs = step["post"]
